@@ -161,6 +161,28 @@ def run(rep, tier, seed):
             except Exception as ex:  # noqa
                 rep.notes.append(f"ode15s raised {type(ex).__name__} on {pname}: {str(ex)[:80]}")
             O15._verif_trace.clear()
+    # ---- ode15s with the step pinned at a user hmax well below the tolerance-driven step (loose rtol): the order keeps changing while
+    #      the step size does not; replayed on the Lean controller like every other run
+    for pname in ("decay", "osc", "ramp"):
+        if pname not in P:
+            continue
+        dae, y0 = P[pname]
+        for hm in (0.1, 0.05, 0.02):
+            for tspan in ([0.0, 2.0], list(np.linspace(0.0, 2.0, 9))):
+                case = dict(problem=pname, tspan=tspan if len(tspan) < 12 else [tspan[0], "...", tspan[-1], len(tspan)], opt=dict(rtol=1e-3, atol=1e-6, hmax=hm), solver="ode15s")
+                O15._verif_trace.clear()
+                try:
+                    s15 = RC.quiet(ode15s, dae, tspan, y0.copy(), Opt(rtol=1e-3, atol=1e-6, hmax=hm))
+                    oracle_grid("ode15s", s15, tspan, hm, False, fails, case)
+                    tr15 = [dict(r) for r in O15._verif_trace]
+                    if tr15:
+                        o15_lines.append(o15_line(tspan, tr15)); o15_expect.append(o15_expected(s15, tr15)); o15_cases.append(case)
+                        hist["o15_runs"] += 1; hist["o15_steps"] += len(tr15)
+                        hist["o15_pinned_at_hmax"] = hist.get("o15_pinned_at_hmax", 0) + sum(1 for r in tr15 if r["absh"] == r["hmax"])
+                        hist["o15_order_changes"] += sum(int(r.get("k_out", r["k"]) != r["k_in"]) for r in tr15)
+                except Exception as ex:  # noqa
+                    rep.notes.append(f"ode15s (hmax family) raised {type(ex).__name__} on {pname}: {str(ex)[:80]}")
+    O15._verif_trace.clear()
     # ---- end-point family: systems (almost) at rest take huge steps, so the last step starts far from tend and
     #      t + (tend - t) is inexact; t0 != 0 on purpose
     from Solverz import Rodas
